@@ -39,6 +39,23 @@ func (l Leafy) Double() int        { return l.Count * 2 }
 func (l *Leafy) PtrName() string   { return "P:" + l.Name }
 func (l Leafy) First() interface{} { return l.Any }
 
+// a data type that also implements error (validation results, API problems): a struct like any other, with fields and methods
+type FormError struct {
+	Field   string
+	Message string
+	Code    int
+}
+
+func (e FormError) Error() string { return e.Field + ": " + e.Message }
+func (e FormError) Label() string { return "label-" + e.Field }
+
+type FormPage struct {
+	Form FormError
+	Ptr  *FormError
+	Last *FormError
+	N    int
+}
+
 func twinA(title string, n int) interface{} {
 	type Product struct {
 		Title string
@@ -112,6 +129,21 @@ func buildGo(d interface{}) interface{} {
 		p := reflect.New(rv.Type())
 		p.Elem().Set(rv)
 		return p.Interface()
+	case "verrpage":
+		// error-typed values in TYPED slots (struct fields): by value, by pointer, nil pointer
+		v := FormError{Field: m["field"].(string), Message: m["message"].(string), Code: int(m["code"].(float64))}
+		v2 := v
+		return FormPage{Form: v, Ptr: &v2, Last: nil, N: 1}
+	case "verr":
+		if m["nil"] == true {
+			var p *FormError
+			return p
+		}
+		v := FormError{Field: m["field"].(string), Message: m["message"].(string), Code: int(m["code"].(float64))}
+		if m["ptr"] == true {
+			return &v
+		}
+		return v
 	case "twin":
 		// two DIFFERENT struct types with the same printed name (function-local types called Product)
 		if m["which"] == "A" {
@@ -646,6 +678,22 @@ func genC11(r *Rng, n int, tier string, emit func(Case)) {
 			}
 		}
 		emit(c)
+		if i%40 == 23 {
+			// values whose type implements error, below the top level, in typed slots: by value, by pointer, as a nil pointer; and a
+			// typed nil pointer held in an interface (the engine renders NON-nil error values found in an interface as "Error: ..." text)
+			fld := []string{"email", "zip", "<b>"}[g.r.Intn(3)]
+			page := J{"k": "verrpage", "field": fld, "message": "required", "code": g.r.Range(1, 99)}
+			for _, slot := range []string{"form", "ptr"} {
+				for _, st := range []J{{"f": "field"}, {"f": "message"}, {"f": "code"}, {"m": "label"}, {"m": "error"}} {
+					emit(Case{"kind": "gopath", "val": page, "path": []interface{}{J{"f": slot}, st}, "absent": false, "bucket": "error-typed", "plen": 2})
+				}
+			}
+			emit(Case{"kind": "gopath", "val": page, "path": []interface{}{J{"f": "last"}}, "absent": true, "bucket": "error-typed", "plen": 1})
+			emit(Case{"kind": "gopath", "val": page, "path": []interface{}{J{"f": "last"}, J{"f": "field"}}, "absent": true, "bucket": "error-typed", "plen": 2})
+			nilIn := J{"k": "map", "entries": J{"last": J{"k": "verr", "nil": true}, "n": J{"k": "int", "v": 1}}}
+			emit(Case{"kind": "gopath", "val": nilIn, "path": []interface{}{J{"f": "last"}}, "absent": true, "bucket": "error-typed", "plen": 1})
+			emit(Case{"kind": "gopath", "val": nilIn, "path": []interface{}{J{"f": "last"}, J{"f": "field"}}, "absent": true, "bucket": "error-typed", "plen": 2})
+		}
 		if i%40 == 7 {
 			// two struct types with the same printed name, one after the other in the same process
 			t := []string{"book", "pen", "<b>"}[g.r.Intn(3)]
